@@ -277,6 +277,9 @@ def run(model: RepoModel, rep, tier: str):
 
     _r5_change_propagation(model, rep, p2)
     _r6_worklist_protocol(model, rep, p2)
+    from ..generic import check_accumulators
+    check_accumulators(model, rep, "C06.R7", ["basics/stmt_def_use_analysis.py"], C06_ADJUDICATED,
+                       "used or defined symbols of a statement are missing from its status, so definitions reaching those uses are not linked", 20)
 
 
 def _r5_change_propagation(model: RepoModel, rep, p2):
@@ -515,7 +518,16 @@ def _t(old, new, count=1):
     return lambda src: __import__("sa.mutate", fromlist=["x"]).text_replace(src, old, new, count)
 
 
+C06_ADJUDICATED = {
+    "basics/stmt_def_use_analysis.py::StmtDefUseAnalysis.analyze_and_save_call_stmt_args::named_args_info::break under `index >= len(named_symbol_list)`":
+        "bound check: there is no symbol behind the index, nothing to contribute",
+}
+
 MUTANTS = [
+    ("first-used-symbol-only", "basics/stmt_def_use_analysis.py",
+     _t("            for symbol in stmt_symbol_list:\n                if not util.isna(symbol):\n                    used_symbol_list.append(\n                        self.create_symbol_or_state_and_add_space(stmt_id, symbol)\n                    )\n",
+        "            for symbol in stmt_symbol_list:\n                if not util.isna(symbol):\n                    used_symbol_list.append(\n                        self.create_symbol_or_state_and_add_space(stmt_id, symbol)\n                    )\n                else:\n                    break\n"),
+     "C06.R7"),
     ("relink-on-out-change", PS,
      _t("        elif status.in_symbol_bits != old_in_symbol_bits:\n            self.update_used_symbols_to_symbol_graph(stmt_id, stmt, frame)",
         "        elif status.out_symbol_bits != old_out_symbol_bits:\n            self.update_used_symbols_to_symbol_graph(stmt_id, stmt, frame)"),
